@@ -211,7 +211,7 @@ def zite(c, a, b):
 class Seq:
     """A finite sequence: length `n` (int or z3 Int) and element function `at`."""
 
-    __slots__ = ("n", "_at", "kind", "_ety", "items", "width")
+    __slots__ = ("n", "_at", "kind", "_ety", "items", "width", "prefix_of")
 
     def __init__(self, n, at, kind="list", items=None):
         self.width = None   # zip(*rows): `width` columns when rows is non-empty, none otherwise
@@ -220,6 +220,7 @@ class Seq:
         self.kind = kind  # 'array' | 'list' | 'tuple' | 'gen'
         self._ety = None
         self.items = items  # python list when fully concrete in length
+        self.prefix_of = None
 
     @staticmethod
     def of(items, kind="list"):
